@@ -42,7 +42,7 @@ theorem overlapOk_iff (g : Graph) (t : List MEv) :
     · exact h1
 
 /-- A worker that finds the node it stands at occupied does not block and does not join in: the
-iteration ends in a sleep of a bounded period `q = max(timeout·tries/10, 10)` hundredths of a second
+iteration ends in a sleep of a bounded period `q = max(timeout·max(tries,1)/10, 10)` hundredths of a second
 (at least 0.1 s, one per mille of the node's budget), its path is reset to the root so that it looks
 for other work, and no node's `started` mark or result list is touched. -/
 theorem bounce_backs_off (g : Graph) (s : State) (w next : Nat)
@@ -50,7 +50,7 @@ theorem bounce_backs_off (g : Graph) (s : State) (w next : Nat)
     (hlast : (s.wd w).path.getLast? = some next) (hlen : (s.wd w).path.length ≠ 1)
     (hocc : isOccupied g s next w = true) :
     ∃ s' q, iter g s w = (s', [Event.sleep (g.worker w).id q], Flow.suspend) ∧ 10 ≤ q ∧
-      q = max (((g.node next).timeout * ((g.node next).maxTries.getD 1) : Int).toNat / 10) 10 ∧
+      q = max (((g.node next).timeout * max ((g.node next).maxTries.getD 1) 1 : Int).toNat / 10) 10 ∧
       (∀ n, (s'.nd n).started = (s.nd n).started ∧ (s'.nd n).results = (s.nd n).results) := by
   unfold iter
   simp only [hroot, hlast, hlen, hocc, Bool.false_eq_true, if_false, if_true, beq_iff_eq]
